@@ -71,6 +71,15 @@ pub struct AgentSim {
     inv_counter: u64,
     stress_done: bool,
     grams: [u8; 2],
+    /// knob (one run in five): the application keeps `StunRequestMut` handles and makes some of its
+    /// send / poll / handle_stun calls through `handle.mut_agent()`
+    pub via_handle: bool,
+    /// knob (one run in four): the application's clock samples are not ordered — some polls carry an
+    /// instant slightly *earlier* than the latest instant already handed in
+    pub stale_polls: bool,
+    /// what a handle reported after a call made through it; judged at the next invariant sweep
+    /// (after the model has processed that call)
+    pending_after: Option<(u128, Option<SocketAddr>)>,
 }
 
 pub fn panic_violation(prop: &str, r: &Reply, what: &str) -> Option<Violation> {
@@ -148,6 +157,9 @@ impl AgentSim {
             delivered_responses: vec![],
             prop: ctx.cfg.prop.clone(),
             grams: [0, 0],
+            via_handle: ctx.ch.rare(1, 5),
+            stale_polls: ctx.ch.rare(1, 4),
+            pending_after: None,
         }
     }
 
@@ -157,19 +169,56 @@ impl AgentSim {
         self.grams = [self.grams[1], code];
     }
 
+    /// The handle through which the previous call was made was asked again after that call; by now
+    /// the model has processed that call.  Same rule as a fresh query: gone exactly if completed
+    /// (limbo free), else the request's destination.
+    fn settle_pending(&mut self, ctx: &mut Ctx) -> ScResult {
+        if let Some((tid, after)) = self.pending_after.take() {
+            if let Err(mut v) = self.model.check_query_tx(tid, &Reply::Tx(after)) {
+                v.site = "kept_handle_after_call".into();
+                return Err(self.fail(ctx, v));
+            }
+        }
+        Ok(())
+    }
+
     /// Execute, log, record; library panics become violations of the property under check.
     pub fn call(&mut self, ctx: &mut Ctx, c: Call) -> Result<Reply, Violation> {
+        self.settle_pending(ctx)?;
+        // through a kept handle?  (only the calls an application would make from inside a callback
+        // that holds one: send, poll, handle_stun)
+        let c = if self.via_handle && matches!(c, Call::Send { .. } | Call::Poll { .. } | Call::Handle { .. }) && ctx.ch.rare(1, 3) {
+            let live: Vec<u128> = self.model.live().map(|t| t.tid).collect();
+            let handle = if !live.is_empty() && !ctx.ch.rare(1, 8) { *ctx.ch.pick(&live) } else { self.model.txs.last().map(|t| t.tid).unwrap_or(0xdead) };
+            ctx.st.inc("op.call_through_kept_handle");
+            Call::Via { handle, inner: Box::new(c) }
+        } else {
+            c
+        };
         let r = exec(&mut self.agent, &c, self.base);
         ev!(ctx, "{} -> {}", call_short(&c), r.short());
         if let Some(v) = panic_violation(&self.prop, &r, &call_short(&c)) {
             return Err(v);
         }
+        if let (Call::Via { handle, .. }, Reply::Via { before, after, .. }) = (&c, &r) {
+            // before the call: what any handle must report (C18 peer address / C05 bookkeeping)
+            if let Err(v) = self.model.check_handle_obs(*handle, *before) {
+                return Err(self.fail(ctx, v));
+            }
+            if let (Some(_), Some(a)) = (before, after) {
+                self.pending_after = Some((*handle, *a));
+            }
+        }
         // (polls are compared per instant, as sets, in `poll_at`: which of several transactions due at
         // the same instant is served first is free, and may legitimately depend on bookkeeping that a
         // dropped response touched)
-        let is_poll = matches!(c, Call::Poll { .. });
+        let (ic, ir): (&Call, &Reply) = match (&c, &r) {
+            (Call::Via { inner, .. }, Reply::Via { inner: ri, .. }) => (inner, ri),
+            _ => (&c, &r),
+        };
+        let is_poll = matches!(ic, Call::Poll { .. });
         if let (Some(sh), false) = (self.shadow.as_mut(), is_poll) {
-            let dropped = matches!((&c, &r), (Call::Handle { .. }, Reply::Drop | Reply::ParseErr(_)));
+            let dropped = matches!((ic, ir), (Call::Handle { .. }, Reply::Drop | Reply::ParseErr(_)));
             if dropped {
                 self.shadow_skipped += 1;
             } else {
@@ -181,12 +230,14 @@ impl AgentSim {
                 }
             }
         }
-        self.history.push((c, r.clone()));
-        Ok(r)
+        let inner_reply = ir.clone();
+        self.history.push((c, r));
+        Ok(inner_reply)
     }
 
     /// Queries after every call: outstanding set and validated set (C05, C15, C18).
     pub fn invariants(&mut self, ctx: &mut Ctx) -> ScResult {
+        self.settle_pending(ctx)?;
         let mut tids: Vec<u128> = self.model.txs.iter().map(|t| t.tid).collect();
         tids.extend(self.extra_tids.iter().copied());
         tids.sort();
@@ -472,7 +523,6 @@ impl AgentSim {
     }
 
     pub fn poll_at(&mut self, ctx: &mut Ctx, at: u64, class: u8) -> Result<PollOutcome, Violation> {
-        debug_assert!(at >= self.now);
         // probes
         let due = self.model.live().filter(|t| t.is_due(at)).count();
         if due >= 2 {
@@ -481,7 +531,7 @@ impl AgentSim {
         if self.model.live().any(|t| !t.rc && !t.sc && t.k + 1 < t.intervals_ms.len() && at >= t.next_instant() + t.intervals_ms[t.k + 1] * MS) {
             ctx.st.inc("probe.poll_later_than_two_deadlines");
         }
-        self.now = at;
+        self.now = self.now.max(at);
         ctx.st.inc("op.poll");
         let r = self.call(ctx, Call::Poll { at })?;
         if let Reply::Wait(t) = r {
@@ -566,7 +616,23 @@ impl AgentSim {
     pub fn op_poll(&mut self, ctx: &mut Ctx) -> ScResult {
         let t = self.poll_target();
         // class: 0 exact, 1 early, 2 1ns early, 3 1ns late, 4 late, 5 very late, 6 same instant, 7 tiny step, 8 huge jump
-        let class = ctx.ch.weighted(&[10, 5, 3, 3, 5, 3, 3, 2, 1, 1]) as u8;
+        let class = ctx.ch.weighted(&[10, 5, 3, 3, 5, 3, 3, 2, 1, 1, if self.stale_polls { 2 } else { 0 }]) as u8;
+        if class == 10 {
+            // a stale clock sample: the application took `now` before some other call that was handed
+            // a later instant (a send stamped with a fresh sample, a poll from another code path).
+            // C06 quantifies over it: "polling earlier yields no event and the same t".
+            let d = match ctx.ch.below(4) {
+                0 => 1,
+                1 => ctx.ch.range(1, 999),
+                2 => ctx.ch.range(1, 50) * MS,
+                _ => ctx.ch.range(1, 2000) * MS,
+            };
+            let at = self.now.saturating_sub(d);
+            ctx.st.inc("fault.poll_with_stale_clock_sample");
+            self.faults += 1;
+            self.poll_at(ctx, at, 1)?;
+            return Ok(());
+        }
         let at = match class {
             0 => t,
             1 => {
@@ -683,7 +749,21 @@ impl AgentSim {
                 // signed message whose *payload* was altered after signing (then re-fingerprinted)
                 let mut b = mk(attrs, seals_of(signed_variant, &self.peer_creds));
                 if b.len() > 28 {
-                    let i = 24 + ctx.ch.below(4) as usize;
+                    // first attribute's value; or (one time in two) any byte before the first integrity
+                    // attribute — header included — with a bias to attribute *padding* bytes
+                    let mut i = 24 + ctx.ch.below(4) as usize;
+                    if ctx.ch.coin() {
+                        if let Verdict::Accept(view) = refcodec::decode(&b) {
+                            let end = view.first_integrity.map(|fi| view.all[fi].off).unwrap_or(b.len());
+                            let mut pads: Vec<usize> = vec![];
+                            for a in view.all.iter().filter(|a| a.off < end) {
+                                let vend = a.off + 4 + a.len;
+                                pads.extend(vend..((vend + 3) & !3));
+                            }
+                            i = if !pads.is_empty() && ctx.ch.coin() { *ctx.ch.pick(&pads) } else { ctx.ch.below(end.max(1) as u64) as usize };
+                            ctx.st.inc("fault.signed_response_altered_anywhere_before_mac");
+                        }
+                    }
                     b[i] ^= 1 << ctx.ch.below(8);
                     let n = b.len();
                     if b[n - 8..n - 6] == [0x80, 0x28] {
@@ -1281,6 +1361,7 @@ fn call_kind(c: &Call) -> &'static str {
         Call::SendData { .. } => "send_data",
         Call::QueryTxMut { .. } => "mut_request_transaction",
         Call::Getters => "getters",
+        Call::Via { inner, .. } => call_kind(inner),
     }
 }
 
